@@ -169,12 +169,26 @@ def build(spec, rec=None):
     return gen.build(s, rec=rec)
 
 
+def _parse_list(parts):
+    """Parse a caller-owned list; it must be left as it was."""
+    from biom.parse import parse_biom_table
+    held = list(parts)
+    t = parse_biom_table(parts)
+    if parts != held:
+        raise Violation("input-modified", "parse_biom_table changed the "
+                        "list it was given")
+    return t
+
+
 def read(text, case, d):
     from biom import load_table, Table
     from biom.parse import parse_biom_table
     how = case["reader"]
     if how in ("load_table", "load_table_gz"):
-        p = os.path.join(d, "t.biom" + (".gz" if how.endswith("gz") else ""))
+        # a gzip-compressed document is one by content, whatever it is named
+        names = ["t.biom.gz", "t.biom", "t.json.GZ", "t.gz.biom", "t"] \
+            if how.endswith("gz") else ["t.biom", "t.json", "t.txt", "t"]
+        p = os.path.join(d, names[(case.get("chunk", 0) // 3) % len(names)])
         opener = (lambda: gzip.open(p, "wt", encoding="utf8")) \
             if how.endswith("gz") else \
             (lambda: open(p, "w", encoding="utf8"))
@@ -195,11 +209,10 @@ def read(text, case, d):
         return parse_biom_table(io.StringIO(text))
     if how == "parse_lines":
         # the lines of the text, as str.splitlines() gives them
-        return parse_biom_table(text.splitlines())
+        return _parse_list(text.splitlines())
     if how == "parse_chunks":
         k = case["chunk"]
-        return parse_biom_table([text[i:i + k]
-                                 for i in range(0, len(text), k)])
+        return _parse_list([text[i:i + k] for i in range(0, len(text), k)])
     return Table.from_json(json.loads(text))
 
 
